@@ -16,6 +16,35 @@ theorem cleanVal_of_lex (hw : P.isWord '}' = false) (v : Str) (hb : IsBal (lexFr
   refine ⟨lexFrom P false v, hb, flatten_lexFrom P false v, fun rest => ?_⟩
   rw [Reparse.lexFrom_append_rbrace P hw rest false v he, lex_delim P '}' .rbrace rest (by decide)]
 
+/-- The same for entry field values, which only need the *enclosed* text `{v}` to lex to a `Value` of the
+grammar: `A} # {B`, `a}{b`, `x} # "y" # {z` are fine. -/
+theorem encVal_of_lex (hw : P.isWord '}' = false) (v : Str)
+    (hb : IsValue (lexFrom P false ('{' :: (v ++ ['}'])))) (he : Reparse.endBS false v = false) :
+    EncVal P v := by
+  have h1 : ∀ rest, lexFrom P false ('{' :: (v ++ '}' :: rest)) =
+      LB :: (lexFrom P false v ++ RB :: lexFrom P false rest) := by
+    intro rest
+    rw [lex_delim P '{' .lbrace _ (by decide), Reparse.lexFrom_append_rbrace P hw rest false v he]
+    rfl
+  have h0 : lexFrom P false ('{' :: (v ++ ['}'])) = LB :: (lexFrom P false v ++ [RB]) := by
+    rw [h1 []]; simp [lexFrom]
+  refine ⟨lexFrom P false ('{' :: (v ++ ['}'])), hb, flatten_lexFrom P false _, fun c r _ => ?_⟩
+  rw [h1 (c :: r), h0]; simp
+
+/-- ... and for @string values, whose enclosed text only has to be brace-balanced. -/
+theorem encBal_of_lex (hw : P.isWord '}' = false) (v : Str)
+    (hb : IsBal (lexFrom P false ('{' :: (v ++ ['}'])))) (he : Reparse.endBS false v = false) :
+    EncBal P v := by
+  have h1 : ∀ rest, lexFrom P false ('{' :: (v ++ '}' :: rest)) =
+      LB :: (lexFrom P false v ++ RB :: lexFrom P false rest) := by
+    intro rest
+    rw [lex_delim P '{' .lbrace _ (by decide), Reparse.lexFrom_append_rbrace P hw rest false v he]
+    rfl
+  have h0 : lexFrom P false ('{' :: (v ++ ['}'])) = LB :: (lexFrom P false v ++ [RB]) := by
+    rw [h1 []]; simp [lexFrom]
+  refine ⟨lexFrom P false ('{' :: (v ++ ['}'])), hb, flatten_lexFrom P false _, fun rest => ?_⟩
+  rw [h1 ('}' :: rest), h0]; simp
+
 theorem printOK_ascii : PrintOK asciiChars where
   word := ⟨by decide, by
     intro c hc
@@ -23,6 +52,7 @@ theorem printOK_ascii : PrintOK asciiChars where
     rcases hc with rfl | rfl <;> decide⟩
   atWord := by decide
   rbWord := by decide
+  nlWord := by decide
   spSpace := by decide
   tabSpace := by decide
   nlSpace := by decide
@@ -64,5 +94,64 @@ theorem cleanVal_nested {P : PyChars} : CleanVal P "x{y{z}}".toList := by
     lex_simple_delim P false ['z'] '}' .rbrace _ hz (by simp) (by decide),
     lex_delim P '}' .rbrace _ (by decide)]
   rfl
+
+/-! ### two concatenation-shaped field values whose content is not balanced -/
+
+def concatToks : List Tok := [LB, .text ['A'], RB, .text [' ', '#', ' '], LB, .text ['B'], RB]
+def adjToks : List Tok := [LB, .text ['a'], RB, LB, .text ['b'], RB]
+
+/-- `{A} # {B}` lexes to two brace groups around the `#`, whatever follows -/
+theorem lex_concat {P : PyChars} (rest : Str) :
+    lexFrom P false ('{' :: ("A} # {B".toList ++ '}' :: rest)) = concatToks ++ lexFrom P false rest := by
+  have hA : SimpleText ['A'] := by intro c hc; simp at hc; subst hc; decide
+  have hB : SimpleText ['B'] := by intro c hc; simp at hc; subst hc; decide
+  have hs : SimpleText [' ', '#', ' '] := by intro c hc; simp at hc; rcases hc with rfl | rfl | rfl <;> decide
+  show lexFrom P false ('{' :: (['A'] ++ '}' :: ([' ', '#', ' '] ++ '{' :: (['B'] ++ '}' :: rest)))) = _
+  rw [lex_delim P '{' .lbrace _ (by decide),
+    lex_simple_delim P false ['A'] '}' .rbrace _ hA (by simp) (by decide),
+    lex_simple_delim P false [' ', '#', ' '] '{' .lbrace _ hs (by simp) (by decide),
+    lex_simple_delim P false ['B'] '}' .rbrace _ hB (by simp) (by decide)]
+  rfl
+
+/-- `{a}{b}` lexes to two adjacent brace groups -/
+theorem lex_adj {P : PyChars} (rest : Str) :
+    lexFrom P false ('{' :: ("a}{b".toList ++ '}' :: rest)) = adjToks ++ lexFrom P false rest := by
+  have ha : SimpleText ['a'] := by intro c hc; simp at hc; subst hc; decide
+  have hb : SimpleText ['b'] := by intro c hc; simp at hc; subst hc; decide
+  show lexFrom P false ('{' :: (['a'] ++ '}' :: '{' :: (['b'] ++ '}' :: rest))) = _
+  rw [lex_delim P '{' .lbrace _ (by decide),
+    lex_simple_delim P false ['a'] '}' .rbrace _ ha (by simp) (by decide),
+    lex_delim P '{' .lbrace _ (by decide),
+    lex_simple_delim P false ['b'] '}' .rbrace _ hb (by simp) (by decide)]
+  rfl
+
+theorem isValue_concatToks : IsValue concatToks := by
+  have hB : IsValue [LB, Tok.text ['B'], RB] := by
+    simpa [LB, RB] using IsValue.braced ['{'] ['}'] [Tok.text ['B']] [] (IsBal.plain _ _ rfl IsBal.nil) IsValue.nil
+  have hs : IsValue (Tok.text [' ', '#', ' '] :: [LB, Tok.text ['B'], RB]) := IsValue.plain _ _ rfl hB
+  simpa [concatToks, LB, RB] using
+    IsValue.braced ['{'] ['}'] [Tok.text ['A']] _ (IsBal.plain _ _ rfl IsBal.nil) hs
+
+theorem isValue_adjToks : IsValue adjToks := by
+  have hb : IsValue [LB, Tok.text ['b'], RB] := by
+    simpa [LB, RB] using IsValue.braced ['{'] ['}'] [Tok.text ['b']] [] (IsBal.plain _ _ rfl IsBal.nil) IsValue.nil
+  simpa [adjToks, LB, RB] using
+    IsValue.braced ['{'] ['}'] [Tok.text ['a']] _ (IsBal.plain _ _ rfl IsBal.nil) hb
+
+/-- the content `A} # {B` of the source value `{A} # {B}` is a good field value (it is not `CleanVal`) -/
+theorem encVal_concat {P : PyChars} : EncVal P "A} # {B".toList :=
+  ⟨concatToks, isValue_concatToks, by decide, fun c r _ => lex_concat (c :: r)⟩
+
+theorem encVal_adj {P : PyChars} : EncVal P "a}{b".toList :=
+  ⟨adjToks, isValue_adjToks, by decide, fun c r _ => lex_adj (c :: r)⟩
+
+theorem isBal_adjToks : IsBal adjToks := by
+  have hb : IsBal [LB, Tok.text ['b'], RB] := by
+    simpa [LB, RB] using IsBal.grp ['{'] ['}'] [Tok.text ['b']] [] (IsBal.plain _ _ rfl IsBal.nil) IsBal.nil
+  simpa [adjToks, LB, RB] using IsBal.grp ['{'] ['}'] [Tok.text ['a']] _ (IsBal.plain _ _ rfl IsBal.nil) hb
+
+/-- `a}{b` (source `{a}{b}`) is a good @string value -/
+theorem encBal_adj {P : PyChars} : EncBal P "a}{b".toList :=
+  ⟨adjToks, isBal_adjToks, by decide, fun rest => lex_adj ('}' :: rest)⟩
 
 end Bib.PrintParse
